@@ -33,13 +33,23 @@ POOL = {
     # names that are also attributes of qiskit's QuantumCircuit (the gate export avoids shadowing them)
     "swap": "def swap(a: bool, b: bool) -> bool:\n    return a and not b",
     "reset": "def reset(a: Qint[2]) -> bool:\n    return a == 3",
+    # definitions that share their NAME (and some of them their expressions) but not their signature / body
+    "sub_ab": "def sub(a: bool, b: bool) -> bool:\n    return a and not b",
+    "sub_ba": "def sub(b: bool, a: bool) -> bool:\n    return a and not b",
+    "sub_or": "def sub(a: bool, b: bool) -> bool:\n    return a or not b",
+    "subq_2": "def subq(a: Qint[2]) -> Qint[2]:\n    return a",
+    "subq_4": "def subq(a: Qint[2]) -> Qint[4]:\n    return a",
+    "call_sub": "def g(x: bool, y: bool) -> bool:\n    return sub(x, y)",
+    "call_subq": "def g(x: Qint[2]) -> Qint[4]:\n    return subq(x) + 3",
 }
+SUBS = {"call_sub": ["sub_ab", "sub_ba", "sub_or"], "call_subq": ["subq_2", "subq_4"]}
 PRED2 = ["eq2", "oracle", "types", "sec", "reset"]          # Qint[2] -> bool
 BOOL2 = ["and", "if", "ast2ast", "f", "swap"]               # (bool, bool) -> bool
 ANYQF = PRED2 + BOOL2 + ["inc", "copy", "sim", "const"]
 
 OPS = ["compile", "compile_fast", "bind", "bindl", "compose", "oraclize", "grover", "grover_el", "dj", "bv", "simon",
-       "qasm", "qiskit", "gate", "sympy", "decompile", "decopt", "truth_table", "recompile", "logicfun", "repr"]
+       "qasm", "qiskit", "gate", "sympy", "decompile", "decopt", "truth_table", "recompile", "logicfun", "repr",
+       "compose_with", "decompile_shared"]
 
 
 def fp_circuit(qc):
@@ -59,6 +69,10 @@ def fp_qf(qf):
         except Exception as e:
             d["outq"] = "raise " + type(e).__name__
     return d
+
+
+def fp_sections(r):
+    return [(s.index, [(str(a), str(b)) for a, b in s.expressions], len(s.gates)) for s in r]
 
 
 def fp_algo(al):
@@ -91,6 +105,8 @@ class World:
 
     def __init__(self):
         self.qf = {}
+        self.dec = None
+        self.results = []
 
     def get(self, key):
         from qlasskit import qlassf
@@ -148,6 +164,16 @@ class World:
         if kind == "decompile":
             r = Decompiler().decompile(self.get(key).circuit())
             return [(s.index, [(str(a), str(b)) for a, b in s.expressions], len(s.gates)) for s in r]
+        if kind == "compose_with":
+            # (kind, caller key, callee key): the callee is compiled afresh, only its NAME is shared with other callees
+            return fp_qf(qlassf(POOL[key], defs=[qlassf(POOL[op[2]], to_compile=False)], to_compile=False))
+        if kind == "decompile_shared":
+            # one Decompiler instance for the whole history; earlier results stay alive and are re-fingerprinted
+            if self.dec is None:
+                self.dec = Decompiler()
+            r = self.dec.decompile(self.get(key).circuit())
+            self.results.append(r)
+            return fp_sections(r)
         if kind == "decopt":
             return fp_circuit(circuit_boolean_optimizer(self.get(key).circuit()))
         if kind == "truth_table":
@@ -165,6 +191,8 @@ class World:
 
     def snapshot(self):
         snap = dict(("qf:" + k, fp_qf(v) if type(v).__name__ != "UnboundQlassf" else fp_unbound(v)) for k, v in self.qf.items())
+        for i, r in enumerate(self.results):
+            snap[f"decompiled:{i}"] = fp_sections(r)
         snap["module"] = fp_module()
         return snap
 
@@ -177,7 +205,7 @@ def fp_unbound(u):
 def random_op(rng):
     kind = rng.choice(OPS)
     if kind in ("compile", "compile_fast"):
-        return (kind, rng.choice(list(k for k in POOL if k not in ("par", "parl", "caller"))))
+        return (kind, rng.choice(list(k for k in POOL if k not in ("par", "parl", "caller", "call_sub", "call_subq"))))
     if kind == "bind":
         return (kind, "par", rng.random() < 0.5)
     if kind == "bindl":
@@ -196,6 +224,11 @@ def random_op(rng):
     if kind == "simon":
         return (kind, rng.choice(["sim", "inc", "copy"]))
     if kind == "recompile":
+        return (kind, rng.choice(ANYQF))
+    if kind == "compose_with":
+        caller = rng.choice(list(SUBS))
+        return (kind, caller, rng.choice(SUBS[caller]))
+    if kind == "decompile_shared":
         return (kind, rng.choice(ANYQF))
     if kind == "gate":
         return (kind, rng.choice(["copy", "swap", "reset", "copy", "swap", "reset"] + ANYQF))
@@ -313,6 +346,10 @@ def fixed_histories():
         [("gate", "reset"), ("grover_el", "reset", True), ("qasm", "reset"), ("gate", "reset")],
         [("compile_fast", "if"), ("compile", "if"), ("compile_fast", "if"), ("truth_table", "if")],
         [("sympy", "and"), ("qiskit", "and"), ("qasm", "and"), ("decopt", "and"), ("sympy", "and")],
+        [("compose_with", "call_sub", "sub_ab"), ("compose_with", "call_sub", "sub_ba"), ("compose_with", "call_sub", "sub_or"),
+         ("compose_with", "call_sub", "sub_ab")],
+        [("compose_with", "call_subq", "subq_2"), ("compose_with", "call_subq", "subq_4"), ("compose_with", "call_subq", "subq_2")],
+        [("decompile_shared", "eq2"), ("decompile_shared", "and"), ("decompile", "eq2"), ("decompile_shared", "eq2"), ("decopt", "and")],
     ]
 
 
